@@ -190,6 +190,55 @@ func getFileNameForType(typePrefix string, headerType HeaderFooterType) string {
 	}
 }
 
+// headerFooterFileName 返回指定类型页眉/页脚的部件文件名。
+// 打开的文档可能按创建顺序给这些部件编号（例如 header1.xml 是首页页眉），
+// 如果库为该类型使用的文件名已被另一种类型的引用占用，则选用一个空闲的文件名，避免覆盖另一种类型的定义。
+func (d *Document) headerFooterFileName(typePrefix string, hfType HeaderFooterType) string {
+	name := getFileNameForType(typePrefix, hfType)
+	if !d.headerFooterPartServesOtherType(name, hfType) {
+		return name
+	}
+	for i := 2; ; i++ {
+		candidate := fmt.Sprintf("%s%d.xml", typePrefix, i)
+		if _, exists := d.parts["word/"+candidate]; !exists {
+			return candidate
+		}
+	}
+}
+
+// headerFooterPartServesOtherType 判断节属性中是否有其他类型的页眉/页脚引用指向该部件
+func (d *Document) headerFooterPartServesOtherType(fileName string, hfType HeaderFooterType) bool {
+	if d.documentRelationships == nil || d.Body == nil {
+		return false
+	}
+	ids := make(map[string]bool)
+	for _, rel := range d.documentRelationships.Relationships {
+		if rel.Target == fileName {
+			ids[rel.ID] = true
+		}
+	}
+	if len(ids) == 0 {
+		return false
+	}
+	for _, element := range d.Body.Elements {
+		sectPr, ok := element.(*SectionProperties)
+		if !ok {
+			continue
+		}
+		for _, ref := range sectPr.HeaderReferences {
+			if ref != nil && ids[ref.ID] && ref.Type != string(hfType) {
+				return true
+			}
+		}
+		for _, ref := range sectPr.FooterReferences {
+			if ref != nil && ids[ref.ID] && ref.Type != string(hfType) {
+				return true
+			}
+		}
+	}
+	return false
+}
+
 // AddHeader 添加页眉
 func (d *Document) AddHeader(headerType HeaderFooterType, text string) error {
 	header := createStandardHeader()
@@ -220,7 +269,7 @@ func (d *Document) AddHeader(headerType HeaderFooterType, text string) error {
 	fullXML := append([]byte(xml.Header), headerXML...)
 
 	// 获取文件名
-	fileName := getFileNameForType("header", headerType)
+	fileName := d.headerFooterFileName("header", headerType)
 	headerPartName := fmt.Sprintf("word/%s", fileName)
 
 	// 存储页眉内容
@@ -273,7 +322,7 @@ func (d *Document) AddFooter(footerType HeaderFooterType, text string) error {
 	fullXML := append([]byte(xml.Header), footerXML...)
 
 	// 获取文件名
-	fileName := getFileNameForType("footer", footerType)
+	fileName := d.headerFooterFileName("footer", footerType)
 	footerPartName := fmt.Sprintf("word/%s", fileName)
 
 	// 存储页脚内容
@@ -352,7 +401,7 @@ func (d *Document) AddHeaderWithPageNumber(headerType HeaderFooterType, text str
 	fullXML := append([]byte(xml.Header), headerXML...)
 
 	// 获取文件名
-	fileName := getFileNameForType("header", headerType)
+	fileName := d.headerFooterFileName("header", headerType)
 	headerPartName := fmt.Sprintf("word/%s", fileName)
 
 	// 存储页眉内容
@@ -431,7 +480,7 @@ func (d *Document) AddFooterWithPageNumber(footerType HeaderFooterType, text str
 	fullXML := append([]byte(xml.Header), footerXML...)
 
 	// 获取文件名
-	fileName := getFileNameForType("footer", footerType)
+	fileName := d.headerFooterFileName("footer", footerType)
 	footerPartName := fmt.Sprintf("word/%s", fileName)
 
 	// 存储页脚内容
@@ -590,7 +639,7 @@ func (d *Document) AddFormattedHeader(headerType HeaderFooterType, config *Heade
 	fullXML := append([]byte(xml.Header), headerXML...)
 
 	// 获取文件名
-	fileName := getFileNameForType("header", headerType)
+	fileName := d.headerFooterFileName("header", headerType)
 	headerPartName := fmt.Sprintf("word/%s", fileName)
 
 	// 存储页眉内容
@@ -655,7 +704,7 @@ func (d *Document) AddFormattedFooter(footerType HeaderFooterType, config *Heade
 	fullXML := append([]byte(xml.Header), footerXML...)
 
 	// 获取文件名
-	fileName := getFileNameForType("footer", footerType)
+	fileName := d.headerFooterFileName("footer", footerType)
 	footerPartName := fmt.Sprintf("word/%s", fileName)
 
 	// 存储页脚内容
